@@ -12,6 +12,8 @@
  5. process-global singletons: contract A then contract B in one process vs B alone: same results and warnings."""
 
 import itertools
+import os
+import time
 import json
 import random
 import re
@@ -120,6 +122,53 @@ def run_list(spec, sigs, ov, others=()):
     return out, list(SETUP_LOG)
 
 
+def _alone(spec, s, ov):
+    out, log = run_list(spec, [s], ov)
+    if out.exception or len(out.results) != 1:
+        return {"failed": True}
+    r2 = new_result()
+    check_setup_log(log, r2, -1)
+    return {"norm": normalise(out.results[0], out.warnings()), "setup_violations": r2["violations"]}
+
+
+def _in_child(fn, timeout=600):
+    import pickle
+    import select
+
+    rd, wr = os.pipe()
+    pid = os.fork()
+    if pid == 0:
+        try:
+            os.close(rd)
+            data = pickle.dumps(fn())
+            with os.fdopen(wr, "wb") as f:
+                f.write(data)
+        except BaseException:  # noqa
+            pass
+        finally:
+            os._exit(0)
+    os.close(wr)
+    buf = b""
+    t_end = time.time() + timeout
+    with os.fdopen(rd, "rb") as f:
+        while time.time() < t_end:
+            ready, _, _ = select.select([f], [], [], 1.0)
+            if ready:
+                chunk = os.read(f.fileno(), 1 << 16)
+                if not chunk:
+                    break
+                buf += chunk
+    try:
+        os.kill(pid, 9)
+    except OSError:
+        pass
+    os.waitpid(pid, 0)
+    try:
+        return pickle.loads(buf) if buf else None
+    except Exception:
+        return None
+
+
 def case_order(seed, idx, res):
     rng = random.Random(f"c20-{seed}-ord-{idx}")
     kinds = ["xor_add", "mul", "storage", "storage2", "disarm", "disarm", "warp_writer", "warp_writer", "time_guard", "time_guard", "two_args", "unsat", "conj3", "bytes_len", "arr_sum", "loop_guard", "nested_assert", "exp", "lit_slot", "hash_touch"]
@@ -130,7 +179,12 @@ def case_order(seed, idx, res):
         tests[0] = testgen.gen_test(rng, 0, kinds=["hash_touch"])
         tests[1] = testgen.gen_test(rng, 1, kinds=["lit_slot"])
         spec = A.ContractSpec("T", [setup] + [t.fn for t in tests] + [t.helper for t in tests if hasattr(t, "helper")])
-    elif k0 < 0.6:
+    elif k0 < 0.35:
+        # two tests whose dynamically sized parameter has the same name but a different type (default size candidates are chosen by type)
+        tests[0] = testgen.gen_test(rng, 0, kinds=["arr_sum"])
+        tests[1] = testgen.gen_test(rng, 1, kinds=["two_dyn"])
+        spec = A.ContractSpec("T", [setup] + [t.fn for t in tests] + [t.helper for t in tests if hasattr(t, "helper")])
+    elif k0 < 0.65:
         # make sure a writer precedes a reader of the same piece of state in some order
         tests[0] = testgen.gen_test(rng, 0, kinds=["disarm", "warp_writer"])
         tests[1] = testgen.gen_test(rng, 1, kinds=["storage2", "time_guard"] if tests[0].kind == "disarm" else ["time_guard"])
@@ -139,12 +193,16 @@ def case_order(seed, idx, res):
     sigs = [t.fn.sig for t in tests]
     alone = {}
     for s in sigs:
-        out, log = run_list(spec, [s], ov)
-        if out.exception or len(out.results) != 1:
+        # the baseline of each test is taken in a forked child: whatever a run leaves behind in this process (module-level caches,
+        # configuration singletons) cannot reach the in-sequence runs below through the baseline runs
+        got = _in_child(lambda s=s: _alone(spec, s, ov))
+        if got is None or got.get("failed"):
             res["counters"]["run_failed"] += 1
             return
-        alone[s] = normalise(out.results[0], out.warnings())
-        check_setup_log(log, res, idx)
+        alone[s] = got["norm"]
+        res["counters"]["baselines_in_fresh_child"] += 1
+        for v in got["setup_violations"]:
+            res["violations"].append(v)
     res["counters"]["contracts"] += 1
     orders = [sigs, list(reversed(sigs))]
     for _ in range(2):
